@@ -258,9 +258,12 @@ def c15_tau(rp):
 @searcher("c15_tau")
 def c15_tau_search(rp, seed):
     rnd = random.Random(seed)
-    for k in range(400):
-        t = [0, 0.0, 1e-9, 25 / 300, 5.0, 1][k % 6]
+    odd = [x for x in (rnd.uniform(0, 3) for _ in range(20000)) if x ** 2 != x * x][:40]   # pow and multiply round differently here
+    for k in range(3000):
+        t = [0, 0.0, 1e-9, 25 / 300, 5.0, 1][k % 6] if k < 60 else (odd[k % len(odd)] if odd and k % 2 else rnd.uniform(0, 3))
         r2 = dict(rp, t=enc(t), game=rand_game(rnd, [len(x) for x in rp["game"]]))
+        if k % 4 == 1:
+            r2["game"] = [[[q[0], enc(rnd.choice([1e-3, 0.05]))] for q in tm] for tm in r2["game"]]
         r2["params"] = dict(rp["params"], mu=enc(25.0), sigma=enc(25 / 3), beta=enc(25 / 6), kappa=enc(1e-4), tau=enc(rnd.choice([0.0, 25 / 300, 0.5, 2.0])))
         try:
             bad, msg = c15_tau(r2)
@@ -565,6 +568,8 @@ def c20_deepcopy(rp):
     name = rp["model"]
     R = rating_cls(name)
     g = [[R(num(p[0]), num(p[1]), name=(f"n{i}{j}" if (i + j) % 2 else None)) for j, p in enumerate(t)] for i, t in enumerate(rp["game"])]
+    if len(g) >= 2 and not rp.get("single"):
+        g[1][0].id = g[0][0].id        # a snapshot and the live player share an id
     c = copy.deepcopy(g)
     if rp.get("single"):
         g = g[0][0]
@@ -810,8 +815,9 @@ def c03_rankings(rp):
 def c03_rankings_search(rp, seed):
     rnd = random.Random(seed)
     n = rp["n"]
-    for _ in range(2000):
-        v = sorted(rnd.choice([0, 1, 2, 1.0, 2.0, -1, 1.5, True, 3]) for _ in range(n))
+    for k in range(2000):
+        pool = [0, 1, 2, 1.0, 2.0, -1, 1.5, True, 3] if k % 3 else [10 ** 12, 10 ** 12 + 1, 1e12 + 0.5, 2 * 10 ** 12, 1727352000123, 1727352000987, 0]
+        v = sorted(rnd.choice(pool) for _ in range(n))
         r2 = dict(rp, ranks=[enc(x) for x in v])
         bad, msg = c03_rankings(r2)
         if bad:
@@ -907,7 +913,11 @@ def real_rate_concrete(rp):
     ckw = {}
     if rp.get("t") is not None:
         ckw["tau"] = num(rp["t"])
-    return values(m.rate(mk_game(name, rp["game"]), ranks=_vec(rp.get("ranks")), scores=_vec(rp.get("scores")), **ckw))
+    g = mk_game(name, rp["game"])
+    if rp.get("twins"):
+        # every team is a deep copy of the first: same values, same ids
+        g = [g[0]] + [[copy.deepcopy(p) for p in g[0]] for _ in g[1:]]
+    return values(m.rate(g, ranks=_vec(rp.get("ranks")), scores=_vec(rp.get("scores")), **ckw))
 
 
 @checker("c01_rate")
@@ -988,7 +998,8 @@ def c07_zero(rp):
     name = rp["model"]
     total, mag = 0.0, 0.0
     svar, theta = [], []
-    for i, t in enumerate(rp["game"]):
+    gsrc = rp["game"] if not rp.get("twins") else [rp["game"][0]] * len(rp["game"])
+    for i, t in enumerate(gsrc):
         s_i = sum(num(q[1]) ** 2 + tau * tau for q in t)
         d_i = sum(got[i][j][0] - num(q[0]) for j, q in enumerate(t))
         svar.append(s_i)
@@ -1012,8 +1023,11 @@ def c07_zero(rp):
 def c07_zero_search(rp, seed):
     rnd = random.Random(seed)
     sizes = [len(x) for x in rp["game"]]
-    for _ in range(300):
+    for k in range(300):
         r2 = dict(rp, game=rand_game(rnd, sizes), params=_std_params(tau=rnd.choice([0.0, 25 / 300])))
+        if k % 2:
+            r2["ranks"] = [enc(rnd.choice(range(len(sizes)))) for _ in sizes]
+            r2["scores"] = None
         try:
             bad, msg = c07_zero(r2)
         except Exception:  # noqa: BLE001
@@ -1774,3 +1788,45 @@ def c20_idsource(rp):
         ids.append((m.rating().id, m.create_rating([1.0, 2.0]).id))
     flat = [x for t in ids for x in t]
     return len(set(flat)) != len(flat), f"{name}: ids of ratings created after re-seeding the global random state: {ids}"
+
+
+@checker("c13_foreign_native")
+def c13_foreign_native(rp):
+    H, HR, OR = model_cls(rp["host"]), rating_cls(rp["host"]), rating_cls(rp["other"])
+    for op in ("rate", "predict_win", "predict_draw", "predict_rank"):
+        teams = [[HR(25.0, 8.0)], [HR(24.0, 7.0), OR(22.0, 5.0)]]
+        try:
+            getattr(H(), op)(teams)
+        except (TypeError, ValueError):
+            continue
+        except Exception as e:  # noqa: BLE001
+            return True, f"{rp['host']}.{op} given a {rp['other']}Rating raised {type(e).__name__}"
+        return True, f"{rp['host']}.{op} accepted a {rp['other']}Rating (isinstance({rp['other']}Rating(), {rp['host']}Rating) = {isinstance(OR(1.0, 1.0), HR)})"
+    return False, "foreign ratings rejected"
+
+
+@checker("c14_twins")
+def c14_twins(rp):
+    name = rp["model"]
+    m = mk_model(name, rp["params"])
+    g = mk_game(name, rp["game"])
+    a = [g[0]] + [[copy.deepcopy(p) for p in g[0]] for _ in g[1:]]
+    h = mk_game(name, rp["game"])
+    R = rating_cls(name)
+    b = [h[0]] + [[R(p.mu, p.sigma) for p in h[0]] for _ in h[1:]]
+    ra, rb = values(m.rate(a, ranks=rp.get("ranks"))), values(m.rate(b, ranks=rp.get("ranks")))
+    return ra != rb, f"{name}.rate: deep copies of one rating -> {str(ra)[:90]} ; independently built equal players -> {str(rb)[:90]}"
+
+
+@searcher("c14_twins")
+def c14_twins_search(rp, seed):
+    rnd = random.Random(seed)
+    for _ in range(50):
+        r2 = dict(rp, game=rand_game(rnd, [len(x) for x in rp["game"]]), params=_std_params())
+        try:
+            bad, msg = c14_twins(r2)
+        except Exception:  # noqa: BLE001
+            continue
+        if bad:
+            return r2, msg
+    return None
